@@ -209,13 +209,40 @@ def collect_models(model):
 
 
 def run(ctx):
+    """One run = one metamodel, 1-3 successive loads of freshly generated worlds
+    (earlier models are dropped: ids get recycled, per-load bookkeeping must not
+    leak from one load into the next)."""
+    import gc
+
     t = ctx.tape
     prop = ctx.prop
     family = t.pick(FAMILIES, "family")
-    nfiles = 1 + t.draw(3, "nfiles") if family in MULTIFILE else 1
     tools = prop == "C34" or t.chance(1, 4, "tools")
     memo = t.chance(1, 4, "memoization")
-    root = "/sim/w1"
+    nloads = 1 + (t.draw(3, "nloads") if t.chance(1, 3, "several-loads") else 0)
+    mm = metamodel_from_str(grammar(), textx_tools_support=tools, memoization=memo)
+    sigs = []
+    samples = []
+    nontrivial = False
+    for rep in range(nloads):
+        ctx.nontrivial = False
+        ok = episode(ctx, t, prop, family, tools, memo, mm, rep)
+        nontrivial = nontrivial or ctx.nontrivial
+        sigs.append(ctx.sig)
+        samples.append(ctx.sample)
+        if rep + 1 < nloads:
+            ctx.probe("further-load-on-the-same-metamodel")
+            gc.collect()
+        if not ok or ctx.violations:
+            break
+    ctx.nontrivial = nontrivial
+    ctx.sig = sigs
+    ctx.sample = samples[0] if len(samples) == 1 else {"loads": samples}
+
+
+def episode(ctx, t, prop, family, tools, memo, mm, rep):
+    nfiles = 1 + t.draw(3, "nfiles") if family in MULTIFILE else 1
+    root = f"/sim/w1/r{rep}"
     w = gen_world(t, root, nfiles=nfiles, qualified=family in QUALIFIED, max_refs=16)
     w.install(SIMFS)
     closure = w.closure()
@@ -240,12 +267,12 @@ def run(ctx):
     }
 
     def build(scheduler):
-        mm = metamodel_from_str(grammar(), textx_tools_support=tools, memoization=memo)
-        prov = ScriptedProvider(base_provider(family), scheduler, ctx)
-        mm.register_scope_providers({"*.*": prov})
-        return mm
+        m2 = metamodel_from_str(grammar(), textx_tools_support=tools, memoization=memo)
+        m2.register_scope_providers({"*.*": ScriptedProvider(base_provider(family), scheduler, ctx)})
+        return m2
 
-    mm = build(sched)
+    # the same metamodel serves every load of the run; only the provider (and its schedule) is re-registered
+    mm.register_scope_providers({"*.*": ScriptedProvider(base_provider(family), sched, ctx)})
     fx = fixpoint(refs) if mode != "rounds" else {r.key for r in refs}
     expect_ok = len(fx) == N
     ctx.ev("world", family, mode, N, expect_ok)
@@ -258,7 +285,7 @@ def run(ctx):
         outcome = "budget"
         ctx.violate("C09", "non-termination", family,
                     f"provider for {b.args[0]} called more than N+2={budget} times")
-    except TextXError as e:
+    except Exception as e:  # a non-textX exception is judged by the oracles below like any other error
         outcome = "error"
         err = e
     ctx.ev("outcome", outcome)
@@ -272,19 +299,19 @@ def run(ctx):
         ctx.probe("load-failed")
     ctx.sig = [family, mode, sched.trace]
     if outcome == "budget":
-        return
+        return False
 
     # ---------------- C09 verdict / failure report
     if expect_ok and outcome != "ok":
         ctx.violate("C09", "verdict", f"{family}/{mode}/spurious-failure",
                     f"fixpoint covers all {N} references but the load failed: {err!r}")
-        return
+        return False
     if not expect_ok:
         if outcome == "ok":
             ctx.violate("C09", "verdict", f"{family}/{mode}/spurious-success",
                         "some references can never resolve but the load succeeded")
-            return
-        missing = sorted(r.text for r in refs if r.key not in fx)
+            return False
+        missing = sorted(r.name for r in refs if r.key not in fx)
         msg = getattr(err, "message", str(err))
         if not isinstance(err, TextXSemanticError) or not msg.startswith("Unresolvable cross references"):
             ctx.violate("C09", "failure-report", f"{family}/wrong-error",
@@ -296,14 +323,14 @@ def run(ctx):
                             f"error names {named}, unresolvable are {missing}")
         if prop == "C09":
             ctx.nontrivial = True
-        return
+        return True
 
     # ---------------- success path
     models = collect_models(model)
     for f in closure:
         if f not in models:
             ctx.violate("C09", "verdict", f"{family}/missing-model", f"no model for {f} after a successful load")
-            return
+            return False
     # per reference: resolved to the expected target
     for u in w.uses:
         if u.file not in closure:
@@ -323,6 +350,10 @@ def run(ctx):
         elif [id(x) for x in got] != [id(x) for x in exp]:
             ctx.violate("C08", "order", f"{family}/{mode}",
                         f"{u.sid()}.refs = {[x.name for x in got]}, textual order is {[x.name for x in exp]}")
+            # the eager schedule gives the textual order, so this result depends on the schedule taken
+            ctx.violate("C09", "result-independent-of-order", f"{family}/list-order",
+                        f"{u.sid()}.refs = {[x.name for x in got]} under this schedule, {[x.name for x in exp]} under "
+                        f"the eager one")
         for attr in ("one", "opt"):
             rr = [r for r in u.refs if r.attr == attr]
             val = getattr(uo, attr)
@@ -348,13 +379,14 @@ def run(ctx):
             if d1 != d2:
                 ctx.violate("C09", "result-independent-of-order", f"{family}/dump",
                             "model under the schedule differs from the model under the eager schedule")
-        except TextXError as e:
+        except Exception as e:
             ctx.violate("C09", "result-independent-of-order", f"{family}/eager-fails",
                         f"eager schedule fails: {e!r}")
     elif prop == "C08":
         ctx.nontrivial = sched.order_at_risk > 0
     if prop == "C34" or tools:
         check_tools(ctx, w, models, closure, family, sched)
+    return True
 
 
 def check_tools(ctx, w, models, closure, family, sched):
@@ -384,7 +416,8 @@ def check_tools(ctx, w, models, closure, family, sched):
             if "." in r.text:
                 multi = True
             if text[e.ref_pos_start:e.ref_pos_end] != r.text:
-                ctx.violate("C34", "ref-span", "multi-part" if "." in r.text else "single-part",
+                ctx.violate("C34", "ref-span", ("spaced-" if r.text != r.name else "") +
+                            ("multi-part" if "." in r.text else "single-part"),
                             f"{r.key}: [{e.ref_pos_start}:{e.ref_pos_end}] = "
                             f"{text[e.ref_pos_start:e.ref_pos_end]!r}, reference text is {r.text!r}")
             tg = r.target
@@ -441,6 +474,8 @@ def check_tools(ctx, w, models, closure, family, sched):
         ctx.nontrivial = bool(w.refs) and (multi or shared or sched.postponements > 0)
         if multi:
             ctx.probe("multi-part-reference")
+        if any(r.text != r.name for r in w.refs):
+            ctx.probe("qualified-name-written-with-whitespace")
         if shared:
             ctx.probe("objects-sharing-a-span")
 
